@@ -19,13 +19,21 @@ EpOf(k)   == IF k = "exec" THEN "execute" ELSE k       \* entry point name of a 
 
 (* ---- methods and parts ------------------------------------------------ *)
 MethodsOf(part, k) == SelectSeq(part.methods, LAMBDA m : m.kind = k)
-WireNames(part, k) == {Str(Wire(m.name)) : m \in Range(MethodsOf(part, k))}
+(* A handler may carry serde attributes forwarded to its variant (`#[sv::attr(serde(..))]`, C17: they take effect there):  *)
+(*   wname    `rename = ".."`: the name the message is written and read under, instead of the one derived from the method *)
+(*   aliases  `alias = ".."`: further names the message is read under                                                     *)
+(* (fields present only on the methods that carry such attributes)                                                        *)
+WName(m) == IF "wname" \in DOMAIN m THEN m.wname ELSE Wire(m.name)
+Aliases(m) == IF "aliases" \in DOMAIN m THEN m.aliases ELSE <<>>
+AcceptC(m) == {WName(m)} \cup Range(Aliases(m))           \* every name the part's decoder takes for this message
+(* the names under which a part exposes messages of kind k *)
+WireNames(part, k) == {Str(n) : n \in UNION {AcceptC(m) : m \in Range(MethodsOf(part, k))}}
 
 (* the method of `part` that a message named `key` of kind k is generated from *)
-OwnersIn(part, k, key) == {m \in Range(MethodsOf(part, k)) : Str(Wire(m.name)) = key}
+OwnersIn(part, k, key) == {m \in Range(MethodsOf(part, k)) : key \in {Str(n) : n \in AcceptC(m)}}
 
-(* the list each part publishes (`<ep>_messages()`): sorted in byte order, duplicate free *)
-NameListC(part, k) == SetToSortSeq({Wire(m.name) : m \in Range(MethodsOf(part, k))}, NameLess)
+(* the list each part publishes (`<ep>_messages()`): the names its messages *serialise* under, sorted in byte order, duplicate free *)
+NameListC(part, k) == SetToSortSeq({WName(m) : m \in Range(MethodsOf(part, k))}, NameLess)
 NameList(part, k)  == [i \in 1..Len(NameListC(part, k)) |-> Str(NameListC(part, k)[i])]
 
 (* rustc, not sylvia, rejects two variants of one enum with the same identifier:    *)
@@ -78,7 +86,8 @@ NameHash(n) == NameHashFrom(n, 1)
 
 ElabMethod(m, code) ==
     [name |-> Str(m.name), name_c |-> m.name, kind |-> m.kind, args |-> m.args, outcome |-> m.outcome,
-     code |-> code, h |-> NameHash(m.name), variant |-> Str(Variant(m.name)), wire |-> Str(Wire(m.name)),
+     code |-> code, h |-> NameHash(m.name), variant |-> Str(Variant(m.name)), wire |-> Str(WName(m)),
+     aliases |-> [i \in 1..Len(Aliases(m)) |-> Str(Aliases(m)[i])], renamed |-> "wname" \in DOMAIN m,
      near |-> Str(Near(m.name)), shape_name |-> IsShapeName(m.name), ctxkind |-> m.ctxkind, resp |-> m.resp, explicit |-> m.explicit, sig |-> m.sig, ret |-> m.ret]
 ElabPart(part, base) ==
     [id |-> part.id,
@@ -94,11 +103,12 @@ Elab(p) ==
 
 (* operators on elaborated programs *)
 EMethodsOf(part, k) == SelectSeq(part.methods, LAMBDA m : m.kind = k)
-EWireNames(part, k) == {m.wire : m \in Range(EMethodsOf(part, k))}
-EOwnersIn(part, k, key) == {m \in Range(EMethodsOf(part, k)) : m.wire = key}
+EAccept(m) == {m.wire} \cup Range(m.aliases)
+EWireNames(part, k) == UNION {EAccept(m) : m \in Range(EMethodsOf(part, k))}       \* names the part's decoder answers to
+EOwnersIn(part, k, key) == {m \in Range(EMethodsOf(part, k)) : key \in EAccept(m)}
 EListed(part, k, key) == \E x \in 1..Len(part.lists[k]) : part.lists[k][x] = key
 EAllMethods(q) == UNION {Range(q.parts[i].methods) : i \in 1..Len(q.parts)}
-EWireUniverse(q) == {m.wire : m \in {x \in EAllMethods(q) : x.kind \in EnumKinds}}
+EWireUniverse(q) == UNION {EAccept(m) : m \in {x \in EAllMethods(q) : x.kind \in EnumKinds}}
 EArgUniverse(q) == UNION {{m.args[i].n : i \in 1..Len(m.args)} : m \in EAllMethods(q)}
 
 (* ---- query response metadata (C16) -------------------------------------- *)
@@ -142,7 +152,7 @@ ArgNames(m) == [i \in 1..Len(m.args) |-> m.args[i].n]
 IsMsgJson(j, m, argvals) ==
     IF m.kind \in EnumKinds
     THEN /\ IsObj(j) /\ Len(j.f) = 1
-         /\ j.f[1].k = Str(Wire(m.name))
+         /\ j.f[1].k = Str(WName(m))
          /\ IsObjOf(j.f[1].v, ArgNames(m), argvals)
     ELSE IsObjOf(j, ArgNames(m), argvals)
 
